@@ -51,6 +51,14 @@ def _biorthogonal(n, k, real):
     return R, L
 
 
+def _fixed_real(n, k):
+    M = np.zeros((n, k))
+    for a in range(n):
+        for b in range(k):
+            M[a, b] = [1.0, 0.5, -0.25, 2.0, -1.0, 0.75][(a * 3 + b * 2) % 6]
+    return M
+
+
 def c17(cfg):
     from pymablock.linalg import ComplementProjector
 
@@ -58,16 +66,23 @@ def c17(cfg):
     n, k = cfg["n"], cfg["k"]
     real = cfg.get("real", False)
     mode = cfg["mode"]  # "hermitian" (L=R, symbolic, not nec. orthonormal) | "general" (independent L) | "biorthogonal" (L^dagger R = 1)
+    fixed = _fixed_real(n, k)
     if mode == "hermitian":
         R = symc.general("r_", n, k, complex_=not real)
         L = R
+    elif mode == "real_R":  # numeric real R (float dtype), symbolic complex L: the operator dtype is decided by both
+        R = symc.const(fixed)
+        L = symc.general("l_", n, k, complex_=not real)
+    elif mode == "real_L":
+        R = symc.general("r_", n, k, complex_=not real)
+        L = symc.const(fixed)
     elif mode == "general":
         R = symc.general("r_", n, k, complex_=not real)
         L = symc.general("l_", n, k, complex_=not real)
     else:
         R, L = _biorthogonal(n, k, real)
-    Rlib = np.array(R, dtype=object)
-    Llib = Rlib if mode == "hermitian" else np.array(L, dtype=object)
+    Rlib = fixed.copy() if mode == "real_R" else np.array(R, dtype=object)
+    Llib = Rlib if mode == "hermitian" else (fixed.copy() if mode == "real_L" else np.array(L, dtype=object))
     sig = f"projector:mode={mode}:real={real}"
     rec.sample = {"config": cfg}
     try:
@@ -187,8 +202,8 @@ def _numeric_replay(cfg, model, name):
         R = np.vstack([np.eye(k), A_])
         L = np.hstack([np.eye(k) - C_ @ A_, C_]).conj().T
     else:
-        R = val("r_", n, k)
-        L = R if mode == "hermitian" else val("l_", n, k)
+        R = _fixed_real(n, k) if mode == "real_R" else val("r_", n, k)
+        L = R if mode == "hermitian" else (_fixed_real(n, k) if mode == "real_L" else val("l_", n, k))
     P = ComplementProjector(R, None if mode == "hermitian" else L)
     D = np.eye(n) - R @ L.conj().T
     v = val("v_", n, 1)[:, 0]
@@ -226,7 +241,7 @@ def _numeric_replay(cfg, model, name):
 
 def configs(tier):
     cfgs = []
-    for mode in ("hermitian", "general", "biorthogonal"):
+    for mode in ("hermitian", "general", "biorthogonal", "real_R", "real_L"):
         for real in (False, True):
             for n, k in ((2, 1), (3, 1), (3, 2)) + (((4, 2), (4, 1)) if tier == "thorough" else ()):
                 cfgs.append(dict(n=n, k=k, mode=mode, real=real, chain=2 if (tier == "quick" or n > 3) else 3))
